@@ -5,7 +5,7 @@ from .. import dep
 from . import common as K
 from . import tcpmodel as T
 
-LEVEL = "proof"
+LEVEL = "other"
 EXPLANATION = (
     "Finite-domain abstract interpretation of every writer of Tcb.state over the observables (state on entry, current "
     "state, SYN/ACK/RST/FIN of the segment being processed): the complete static transition relation is extracted and "
